@@ -229,3 +229,68 @@ func VerifC03PrioritySites() {
 	}
 	lib.VerifReach("priority site checked")
 }
+
+// c02Late is a behaviour into whose mailbox a message lands after its last look at the queues and
+// before the runner puts the process to sleep (the sender's own run() finds it Running and leaves).
+type c02Late struct {
+	n           *node
+	p           *process
+	queue       int // 0 main, 1 system (High), 2 urgent (Max), 3 log
+	activations int
+	handled     int
+	pushed      bool
+	sendErr     error
+}
+
+func (b *c02Late) ProcessInit(process gen.Process, args ...any) error { return nil }
+func (b *c02Late) ProcessRun() error {
+	b.activations++
+	for _, q := range []lib.QueueMPSC{b.p.mailbox.Urgent, b.p.mailbox.System, b.p.mailbox.Main, b.p.mailbox.Log} {
+		for {
+			if _, ok := q.Pop(); !ok {
+				break
+			}
+			b.handled++
+		}
+	}
+	if !b.pushed {
+		b.pushed = true
+		from := gen.PID{Node: b.n.name, ID: 3000, Creation: 1}
+		switch b.queue {
+		case 3:
+			b.p.mailbox.Log.Push(gen.TakeMailboxMessage())
+			b.p.run()
+		default:
+			prio := []gen.MessagePriority{gen.MessagePriorityNormal, gen.MessagePriorityHigh, gen.MessagePriorityMax}[b.queue]
+			b.sendErr = b.n.RouteSendPID(from, b.p.pid, gen.MessageOptions{Priority: prio}, "late")
+		}
+	}
+	return nil
+}
+func (b *c02Late) ProcessTerminate(reason error) {}
+
+// VerifC02Recheck: the window between a behaviour's last look at its queues and the runner's
+// Running->Sleep transition, taken sequentially: a message is accepted in that window (real
+// RouteSendPID at a symbolic priority, or a log message; the sender's run() sees Running and does
+// nothing). The real runner must notice it in whichever queue it is and activate the behaviour
+// again: the message is handled without any further traffic and the process ends up asleep with
+// empty queues.
+func VerifC02Recheck() {
+	lib.VerifClockAdvance(0)
+	n := vfNode()
+	p, _ := vfProc(n, 2000, "", gen.ProcessStateSleep, 0)
+	b := &c02Late{n: n, p: p, queue: lib.VerifPick("queue", 4)}
+	p.behavior = b
+	first := lib.VerifPick("first", 2) // the process is woken by a message (1) or by a bare run() (0)
+	if first == 1 {
+		p.mailbox.Main.Push(gen.TakeMailboxMessage())
+	}
+	p.run()
+	lib.VerifYield()
+	lib.VerifAssert(b.sendErr == nil, "a send to a running process is accepted")
+	lib.VerifAssert(b.handled == 1+first, "a message accepted while the process was about to go to sleep is handled without further traffic")
+	lib.VerifAssert(b.activations == 2, "the runner activates the behaviour again for the late message, once")
+	lib.VerifAssert(p.state == int32(gen.ProcessStateSleep), "the process is asleep afterwards")
+	lib.VerifAssert(p.mailbox.Main.Item() == nil && p.mailbox.System.Item() == nil && p.mailbox.Urgent.Item() == nil && p.mailbox.Log.Item() == nil, "no message is left behind with the process asleep")
+	lib.VerifReach("late message handled")
+}
